@@ -325,7 +325,7 @@ def write_replay(pm, pid, fq, clause, d):
         "obligation": f"{pid}:{fq}:{clause}",
         "function": fq,
         "clause": clause,
-        "verifier": "z3 counter-model of the negated verification condition (refute mode: loops unrolled)" if w.get("model") else "bounded native check",
+        "verifier": "bounded native stand-in on the real code (no solver involved)" if d.get("bounded") else ("z3 counter-model of the negated verification condition (refute mode: loops unrolled)" if w.get("model") else "site scan / no model"),
         "verifier_output": w.get("model"),
         "failed_obligation_name": w.get("name"),
         "native_witness": native,
